@@ -60,7 +60,7 @@ def required(tier):
            'overlay:list-valued-setting-in-file-and-kwargs',
            'questionable-load:with-warnings-as-errors', 'paths:relative-to-working-directory',
            'mutate:any-public-attribute:refused', 'mutate-any:config.emissions.enabled_species',
-           'overlay:weather-directory-unset']
+           'overlay:weather-directory-unset', 'valid-load:identical-to-the-active-configuration']
     return {'classes': cl, 'evaluations': 5000}
 
 
@@ -272,6 +272,20 @@ class Machine:
             self.rec.cls('paths:relative-to-working-directory')
         self.log.append(('valid-load', how, file_o, kw_o, route))
         was = self.state
+        twin = False
+        if was is not None and route == 'load' and not cwd_relative and rng.random() < 0.35:
+            # a second load with EXACTLY the values of the active configuration (all paths
+            # already absolute): still a second configuration, still refused
+            try:
+                dump = Config.get().model_dump()
+                cfg_file = None
+                kwargs = {k_: v_ for k_, v_ in dump.items()}
+                kwargs['path'] = [str(x) for x in dump['path']]
+                kwargs['data_path_overrides'] = [str(x) for x in dump['data_path_overrides']]
+                twin = True
+                self.rec.cls('valid-load:identical-to-the-active-configuration')
+            except Exception:  # noqa: BLE001
+                twin = False
         try:
             if route == 'load':
                 Config.load(config_file=cfg_file, **kwargs)
